@@ -10,8 +10,8 @@ class Prop:
             'vessels and 11 message types with default timestamps under a controlled clock, TTL changes and exact '
             'age = TTL ties; callbacks registered for all three events; after every operation the implementation is '
             'compared with the Lean model (state in dict order, verdict, events) and with an independent abstract '
-            'tracker written from the property text; non-trivial = at least one accepted update')
-    assumptions = ['times are integers (exact in IEEE arithmetic); sub-ulp rounding differences between '
+            'tracker written from the property text; non-trivial = at least one accepted update ; realistic epochs and mixed time-stamp magnitudes; histories counted in quarter seconds (sub-second stamps); directed expiry histories (vessels inserted out of time order, one disturbance, then the clock at every TTL boundary +-1); get_track; MMSI given as int and str; a one-for-all observer and an observer that unsubscribes / subscribes (twice) during the history, its calls compared with the model of the event broker')
+    assumptions = ['times are integers or multiples of 1/4 s (exact in IEEE arithmetic); sub-ulp rounding differences between '
                    '(t - ttl) < oldest and (t - lu) < ttl are not exhibitable by the model',
                    'the order of DELETED events within one cleanup is unspecified (Python set) and canonicalised']
 
